@@ -234,10 +234,18 @@ def snapshot(result):
     return {n: table_rows(getattr(result, n)) for n in ('environments', 'learners', 'evaluators', 'interactions')}, dict(result.experiment)
 
 
+def is_empty(snap):
+    return all(not rows for _, rows in snap[0].values())
+
+
 def compare(exp: Expect, snap, completed, logged):
     """All mismatches between one Result snapshot and the reference: list of (key, what)."""
     out = []
     tables, _ = snap
+    if is_empty(snap):      # one key for "nothing came back at all" (the experiment failed, or the log could not be read back)
+        feat = ('logged ' + '+'.join(sorted(set(logged)))) if logged else 'nothing logged'
+        return [(f'result|all four tables empty|{feat}', f'the Result has no rows in any table; expected {len(exp.params["environments"])} environment(s), '
+                 f'{len(exp.params["learners"])} learner(s), {len(exp.params["evaluators"])} evaluator(s); logged={logged}')]
     # ---- parameter tables
     for name, idcol in (('environments', 'environment_id'), ('learners', 'learner_id'), ('evaluators', 'evaluator_id')):
         cols, rows = tables[name]
@@ -620,6 +628,8 @@ class C07(Check):
                 r = check(mode, 'Experiment.run(file)', st, completed, log)
                 f = check(mode, 'Result.from_file(file)', self._load(path), completed, log)
                 snaps[mode] = r
+                if r is not None and is_empty(r): r = None          # already reported as 'all four tables empty'
+                if f is not None and is_empty(f): f = None
                 if r is not None and f is not None:
                     d = identical(r, f)
                     if d: note(mode, f'identity|Result(run with file) != Result.from_file(file)|{d[0]}', d[1])
